@@ -589,3 +589,121 @@ Fixpoint rv_path (tm : bool) (es : list rv_ev) (s : state) : option (list label)
                    | None => None end
       | None => None end
   end.
+
+(* ==== the reset guard ========================================================================
+   resetToStandby(expected) is CompareAndSwap(expected, standby): a reset request that was
+   decided for an EARLIER state (the input reader saw "transferring" and an end marker, then
+   was delayed behind its channel send) is harmless once the relay has moved on.  The variant
+   below carries the other possibility, a reset from whatever state the relay is in
+   (Swap(standby)), so that the model can say which interleavings need the guard; which of
+   the two the CURRENT source has is regenerated from relay.go ([rg_current] from
+   Consts.relay_reset_guarded; Proofs/Relay.v ties it to the generated skeleton as well). *)
+Definition rg_current : bool := negb Consts.relay_reset_guarded.
+
+Definition rg_reset (ug : bool) (expect : status) (s : state) : state :=
+  if ug then set_st s StS
+  else match expect, st s with StT, StT | StH, StH | StS, StS => set_st s StS | _, _ => s end.
+
+(* step_fn (faithful, re-read enabled) with the reset of the three resetToStandby call sites
+   replaced by [rg_reset ug]; [rg_step false] is [step_fn true] (Proofs: rg_step_guarded) *)
+Definition rg_step (ug tm : bool) (l : label) (s : state) : option state :=
+  match l with
+  | LInEnd cas => match ipc s with I6 t => Some (set_ipc (if t && cas then rg_reset ug StT s else s) I0) | _ => None end
+  | LOutEnd cas => match opc s with O6 => Some (set_opc (if cas then rg_reset ug StT s else s) O0) | _ => None end
+  | LHsDone => match hpc s with
+               | HD cf => Some (set_tl (set_lk (set_hpc (if cf then set_st s StT else rg_reset ug StH s) HN) ByTl) true)
+               | _ => None end
+  | _ => step_fn true tm l s
+  end.
+
+Fixpoint rg_run (ug tm : bool) (ls : list label) (s : state) : option state :=
+  match ls with
+  | [] => Some s
+  | l :: r => match rg_step ug tm l s with Some s' => rg_run ug tm r s' | None => None end
+  end.
+
+Definition conserved_O_b (si : list byte) (s : state) : bool :=
+  list_eqb (inO_of (hO s) ++ hs_flO (hpc s) ++ flat (obr s) (obq s) ++ inflightO (opc s) ++ concat (sin s)) si
+  && list_eqb (outO_of Std (hO s)) (clog s) && list_eqb (outO_of Byp (hO s)) (blog s).
+
+(* what the search looks for: conservation broken, or bytes parked while the relay is not
+   handshaking (nothing will ever flush them: parked_only_while_handshaking) *)
+Definition rg_is_nil (l : list byte) : bool := match l with [] => true | _ => false end.
+Definition rg_stranded (s : state) : bool :=
+  negb (rg_is_nil (flat (ibr s) (ibq s)) && rg_is_nil (flat (obr s) (obq s)))
+  && match st s with StH => false | _ => true end.
+Definition rg_bad (ci si : list byte) (s : state) : bool :=
+  negb (conserved_I_b ci s && conserved_O_b si s) || rg_stranded s.
+
+(* ---- the three threads as deterministic programs over an abstract alphabet --------------
+   For the schedule search the oracle choices of the labels are resolved by the CONTENT of
+   the chunks, over a small alphabet: a server chunk holding byte 9 carries a trigger; a
+   chunk holding 7 carries an end marker; 10 ends a line; a line holding 1 is a valid ACT
+   (with 3: confirm), a line holding 2 a valid CFG; the relay's own lines are [101] (ACT),
+   [102] (CFG), [103] (FAIL).  What a thread has to remember between two of its steps
+   (end marker in the chunk just sent, action.Confirm) is [rg_mem].  The worker reads a line
+   only when a complete one is parked (when it consumes the bytes is not observable). *)
+Definition rg_has (x : N) (c : list byte) : bool := existsb (N.eqb x) c.
+Fixpoint rg_line (l : list byte) : option nat :=
+  match l with
+  | [] => None
+  | b :: r => if b =? 10 then Some 1%nat else match rg_line r with Some k => Some (S k) | None => None end
+  end.
+
+Record rg_mem := rg_mk_mem { rg_ie : bool; rg_oe : bool; rg_cf : bool }.
+Definition rg_mem0 := rg_mk_mem false false false.
+Inductive rg_thread := RgIn | RgOut | RgHs | RgTl.
+
+Definition rg_next (th : rg_thread) (m : rg_mem) (s : state) : option (label * rg_mem) :=
+  match th with
+  | RgIn =>
+      match ipc s with
+      | I0 => match cin s with [] => None | _ => Some (LInRead, m) end
+      | I1 _ => Some (LInLoad, m) | I3 _ => Some (LInLock, m) | I4 _ => Some (LInReload, m)
+      | I4a _ => Some (LInAdd, m) | I4p => Some (LInUnlockP, m) | I4u _ _ => Some (LInUnlockU, m)
+      | I5 c _ => Some (LInSend, rg_mk_mem (rg_has 7 c) (rg_oe m) (rg_cf m))
+      | I6 _ => Some (LInEnd (rg_ie m), m)
+      end
+  | RgOut =>
+      match opc s with
+      | O0 => match sin s with [] => None | _ => Some (LOutRead, m) end
+      | O1 _ => Some (LOutLoad, m) | O3 _ => Some (LOutLock, m) | O4 _ => Some (LOutReload, m)
+      | O4a _ => Some (LOutAdd, m) | O4p => Some (LOutUnlockP, m) | O4u _ _ => Some (LOutUnlockU, m)
+      | O5 c true => Some (LOutBypass, rg_mk_mem (rg_ie m) (rg_has 7 c) (rg_cf m))
+      | O5 c false => Some (LOutDetect c (rg_has 9 c), m)
+      | O5h _ _ => Some (LOutStoreH, m) | O5g _ _ => Some (LOutGo, m) | O5s _ _ => Some (LOutSend, m)
+      | O6 => Some (LOutEnd (rg_oe m), m)
+      end
+  | RgHs =>
+      match hpc s with
+      | HN => None
+      | H0 => match rg_line (flat (ibr s) (ibq s)) with
+              | Some k => let line := firstn k (flat (ibr s) (ibq s)) in
+                          Some (LHsAct k (if rg_has 1 line then RdOk else RdErr), rg_mk_mem (rg_ie m) (rg_oe m) (rg_has 3 line))
+              | None => None end
+      | H2 => Some (LHsSendAct [101] (rg_cf m), m)
+      | H3 => match rg_line (flat (obr s) (obq s)) with
+              | Some k => Some (LHsCfg k (if rg_has 2 (firstn k (flat (obr s) (obq s))) then RdOk else RdErr), m)
+              | None => None end
+      | H4 => Some (LHsSendCfg [102], m)
+      | HF1 => Some (LHsFail1 [103], m) | HF2 => Some (LHsFail2 [103], m)
+      | HL _ => Some (LHsLock, m) | HP1 _ => Some (LHsPopI, m) | HS1 _ _ => Some (LHsSendI, m)
+      | HP2 _ => Some (LHsPopO, m) | HS2 _ _ => Some (LHsSendO, m) | HD _ => Some (LHsDone, m)
+      end
+  | RgTl => if tlk s then Some (LTlUnlock, m) else None
+  end.
+
+Definition rg_move (ug tm : bool) (th : rg_thread) (ms : rg_mem * state) : option (label * (rg_mem * state)) :=
+  match rg_next th (fst ms) (snd ms) with
+  | Some (l, m') => match rg_step ug tm l (snd ms) with Some s' => Some (l, (m', s')) | None => None end
+  | None => None
+  end.
+
+(* back at the head of its loop (In, Out), finished (Hs), released (Tl) *)
+Definition rg_at_head (th : rg_thread) (s : state) : bool :=
+  match th with
+  | RgIn => match ipc s with I0 => true | _ => false end
+  | RgOut => match opc s with O0 => true | _ => false end
+  | RgHs => match hpc s with HN => true | _ => false end
+  | RgTl => negb (tlk s)
+  end.
